@@ -40,10 +40,12 @@ Print Assumptions Cli_translate_tau_star_sound.
    i-th formula of t -- in every HT interpretation with H subset-of T and every assignment for the
    intuitionistic and ht portfolios, in every classical interpretation for the classic portfolio --
    and has no free variable the i-th input formula did not have (C07).
+   FOR EVERY FUEL of the classic fixpoint loop ([run_cli] = [run_cli_fuel 64], Cli_executable_instance;
+   a printed answer is the answer of every larger fuel, Cli_fuel_monotone).
    [simplify_rel pf F G] := [simplify_equiv pf F G /\ incl (free_variables G) (free_variables F)]. *)
 Theorem Cli_simplify_sound :
-  forall (portfolio : simplification_portfolio) (strategy : simplification_strategy) (s out : string),
-  run_cli (Simplify portfolio strategy) s = Stdout out ->
+  forall (fuel : nat) (portfolio : simplification_portfolio) (strategy : simplification_strategy) (s out : string),
+  run_cli_fuel fuel (Simplify portfolio strategy) s = Stdout out ->
   exists t t' : theory,
     FolParse.parse_theory_str s = FolParse.PR_ok t /\
     out = FolPrint.show_theory t' /\
@@ -66,9 +68,9 @@ Print Assumptions Cli_simplify_rel_meaning.
 (* for the intuitionistic and ht portfolios the model's fixpoint loop never runs out of fuel (C18):
    every outcome of `simplify` is decided by the parser alone *)
 Theorem Cli_simplify_int_ht_terminates :
-  forall (portfolio : simplification_portfolio) (strategy : simplification_strategy) (s : string),
+  forall (fuel : nat) (portfolio : simplification_portfolio) (strategy : simplification_strategy) (s : string),
   portfolio <> Classic ->
-  match run_cli (Simplify portfolio strategy) s with
+  match run_cli_fuel fuel (Simplify portfolio strategy) s with
   | Stdout _ => exists t, FolParse.parse_theory_str s = FolParse.PR_ok t
   | Error => FolParse.parse_theory_str s = FolParse.PR_err
   | Panic => FolParse.parse_theory_str s = FolParse.PR_panic
@@ -76,6 +78,61 @@ Theorem Cli_simplify_int_ht_terminates :
   end.
 Proof. exact cli_simplify_int_ht_terminates. Qed.
 Print Assumptions Cli_simplify_int_ht_terminates.
+
+(* ---- the fuel of the classic portfolio: C18_term_cls composed (audit A8) ---- *)
+Theorem Cli_executable_instance : forall c s, run_cli c s = run_cli_fuel 64 c s.
+Proof. reflexivity. Qed.
+Print Assumptions Cli_executable_instance.
+
+(* an answer other than OutOfFuel is the answer of every larger fuel *)
+Theorem Cli_fuel_monotone :
+  forall (n : nat) (c : command) (s : string) (r : cli_result),
+    run_cli_fuel n c s = r -> r <> OutOfFuel -> forall m, n <= m -> run_cli_fuel m c s = r.
+Proof. exact run_cli_fuel_mono. Qed.
+Print Assumptions Cli_fuel_monotone.
+
+(* for the classic portfolio too the simplifier never gives up: from [cli_fuel_bound s] passes on
+   (the maximum of ClsTerm.classic_fuel over the formulas of the parsed theory) OutOfFuel can only
+   be the parser model's own fuel bound (FolParse.PR_oof), for all three portfolios *)
+Theorem Cli_simplify_never_out_of_fuel :
+  forall (portfolio : simplification_portfolio) (strategy : simplification_strategy) (s : string),
+    exists n, forall m, n <= m ->
+      run_cli_fuel m (Simplify portfolio strategy) s = OutOfFuel ->
+      FolParse.parse_theory_str s = FolParse.PR_oof.
+Proof.
+  intros portfolio strategy s. exists (cli_fuel_bound s). intros m Hm.
+  exact (cli_simplify_out_of_fuel_only_parser m portfolio strategy s Hm).
+Qed.
+Print Assumptions Cli_simplify_never_out_of_fuel.
+
+(* every command line has ONE answer given by all sufficiently large fuels *)
+Theorem Cli_eventual_result :
+  forall (c : command) (s : string), exists n, forall m, n <= m -> run_cli_fuel m c s = run_cli_fuel n c s.
+Proof. exact cli_eventual_result. Qed.
+Print Assumptions Cli_eventual_result.
+
+(* `anthem simplify` never panics in the simplifier: the classic rewrites panic only outside the
+   parser image, and what they are handed IS the parser's output (audit A8 b) *)
+Theorem Cli_simplify_panic_only_from_parser :
+  forall (fuel : nat) (portfolio : simplification_portfolio) (strategy : simplification_strategy) (s : string),
+    run_cli_fuel fuel (Simplify portfolio strategy) s = Panic ->
+    FolParse.parse_theory_str s = FolParse.PR_panic.
+Proof. exact cli_simplify_panic_only_parser. Qed.
+Print Assumptions Cli_simplify_panic_only_from_parser.
+
+(* all three portfolios: from [cli_fuel_bound s] passes on, every outcome of `simplify` is decided by
+   the parser alone (generalises Cli_simplify_int_ht_terminates to the classic portfolio) *)
+Theorem Cli_simplify_decided_by_parser :
+  forall (m : nat) (portfolio : simplification_portfolio) (strategy : simplification_strategy) (s : string),
+    cli_fuel_bound s <= m ->
+    match run_cli_fuel m (Simplify portfolio strategy) s with
+    | Stdout _ => exists t, FolParse.parse_theory_str s = FolParse.PR_ok t
+    | Error => FolParse.parse_theory_str s = FolParse.PR_err
+    | Panic => FolParse.parse_theory_str s = FolParse.PR_panic
+    | OutOfFuel => FolParse.parse_theory_str s = FolParse.PR_oof
+    end.
+Proof. exact cli_simplify_decided_by_parser. Qed.
+Print Assumptions Cli_simplify_decided_by_parser.
 
 (* `anthem parse --as program --output default FILE` printed [out]: [out] is the rendering of the
    parsed program P and -- outside the class KeywordIdent (finding F7: an identifier spelled `not`
